@@ -1316,6 +1316,17 @@ static const CFun CFUNS[] = {
     { "c.mul.real", 1, 8, 1, [](cld a, cld b, cld, long double) { return a * cld(b.real(), 0); } },
     { "c.sub.assign", 1, 8, 0, [](cld a, cld b, cld, long double) { return a - b; } },
     { "c.div.assign", 1, 8, 1, [](cld a, cld b, cld, long double) { return a / b; } },
+    { "c.add.assign", 1, 8, 0, [](cld a, cld b, cld, long double) { return a + b; } },
+    { "c.mul.assign", 1, 8, 1, [](cld a, cld b, cld, long double) { return a * b; } },
+    { "c.selfadd", 0, 8, 0, [](cld a, cld, cld, long double) { return a + a; } },
+    { "c.selfsub", 0, 8, 0, [](cld a, cld, cld, long double) { return cld(0, 0); } },
+    { "c.selfmul", 0, 8, 1, [](cld a, cld, cld, long double) { return a * a; } },
+    { "c.selfmul.op", 0, 8, 1, [](cld a, cld, cld, long double) { return a * a; } },
+    { "c.selfdiv", 0, 8, 1, [](cld a, cld, cld, long double) { return cld(1, 0); } },
+    { "c.selffma", 0, 8, 3, [](cld a, cld, cld, long double) { return a * a + a; } },
+    { "c.mul.assign.real", 1, 8, 1, [](cld a, cld b, cld, long double) { return a * cld(b.real(), 0); } },
+    { "c.div.real", 1, 8, 1, [](cld a, cld b, cld, long double) { return a / cld(b.real(), 0); } },
+    { "c.sub.real.l", 1, 8, 0, [](cld a, cld b, cld, long double) { return cld(b.real(), 0) - a; } },
     { "c.get", 0, 0, 0, [](cld a, cld, cld, long double) { return a; } },
     { "c.broadcast", 0, 0, 0, [](cld a, cld, cld, long double) { return a; } },
     { "c.mul.scalar", 0, 8, 1, [](cld a, cld, cld, long double) { return a * cld(2, -3); } },
@@ -1473,6 +1484,10 @@ void MathExplorer::run_complex()
                 long double y = f.kind == 4 ? (long double)t.b0 : (f.kind == 5 ? (long double)t.a1 : 0);
                 if (f.kind == 5)
                     a = cld(t.a0, 0);
+                if (!strcmp(f.name, "c.selffma"))
+                    b = c = a; // the same object in every argument slot
+                if (strstr(f.name, ".real"))
+                    b = cld(b.real(), 0); // only the real part of the second operand takes part: the range premise is about it
                 auto inrange = [&](cld z)
                 {
                     long double m = std::abs(z);
@@ -1482,7 +1497,11 @@ void MathExplorer::run_complex()
                     if (!inrange(a) || (f.kind != 4 && !inrange(b)) || (f.rule == 3 && !inrange(c)))
                         continue;
                 const std::string fname = f.name;
-                if (fname == "c.div" && std::abs(b) == 0)
+                if ((fname == "c.div" || fname == "c.div.assign") && std::abs(b) == 0)
+                    continue;
+                if (fname == "c.div.real" && b.real() == 0)
+                    continue;
+                if (fname == "c.selfdiv" && std::abs(a) == 0)
                     continue;
                 if (f.rule == 2 && (fabsl(a.real()) > 20 || fabsl(a.imag()) > 20))
                     continue;
@@ -1520,6 +1539,8 @@ void MathExplorer::run_complex()
                     long double y = f.kind == 4 ? (long double)t.b0 : (f.kind == 5 ? (long double)t.a1 : 0);
                     if (f.kind == 5)
                         a = cld(t.a0, 0);
+                    if (!strcmp(f.name, "c.selffma"))
+                        b = c = a;
                     if (!use[e])
                         continue;
                     const cld w = W[e], w2 = W2[e];
@@ -1535,8 +1556,13 @@ void MathExplorer::run_complex()
                     else
                     {
                         long double scale = mw > 1 ? mw : 1.0L;
-                        if (std::string(f.name) == "c.add" || std::string(f.name) == "c.sub" || std::string(f.name) == "c.mul" || std::string(f.name) == "c.div")
-                            scale = mw; // relative to the result's modulus
+                        {
+                            // the four arithmetic operations in every spelling: relative to the result's modulus
+                            static const char* const ARITH[] = { "c.add", "c.sub", "c.mul", "c.div", "c.selfadd", "c.selfmul" };
+                            for (const char* pre : ARITH)
+                                if (!strncmp(f.name, pre, strlen(pre)) && (f.name[strlen(pre)] == 0 || f.name[strlen(pre)] == '.'))
+                                    scale = mw;
+                        }
                         if (f.rule == 3)
                             scale = fmaxl(mw, fmaxl(std::abs(a) * std::abs(b), std::abs(c)));
                         if (scale < MIN * 16)
